@@ -140,6 +140,37 @@ class VerifyService:
                     permissions=b'',
                 )
             psid: int = header_info.get("psid", 0)
+            to_be_signed = authorization_ticket.certificate["toBeSigned"]
+            # The message's ITS-AID shall be among the application permissions of the signing ticket
+            app_permissions = to_be_signed.get("appPermissions")
+            if app_permissions is not None and psid not in [
+                permission["psid"] for permission in app_permissions
+            ]:
+                return SNVERIFYConfirm(
+                    report=ReportVerify.INVALID_CERTIFICATE,
+                    certificate_id=authorization_ticket.as_hashedid8(),
+                    its_aid=b'',
+                    its_aid_length=0,
+                    permissions=b'',
+                )
+            # generationTime (microseconds) shall lie within the validity period of the ticket
+            validity_period = to_be_signed.get("validityPeriod")
+            if validity_period is not None:
+                seconds_per_unit = {
+                    "microseconds": 1e-6, "milliseconds": 1e-3, "seconds": 1, "minutes": 60,
+                    "hours": 3600, "sixtyHours": 216000, "years": 31556952,
+                }
+                unit, amount = validity_period["duration"]
+                valid_from = validity_period["start"] * 1_000_000
+                valid_until = valid_from + int(amount * seconds_per_unit[unit] * 1_000_000)
+                if not valid_from <= header_info["generationTime"] <= valid_until:
+                    return SNVERIFYConfirm(
+                        report=ReportVerify.INVALID_TIMESTAMP,
+                        certificate_id=authorization_ticket.as_hashedid8(),
+                        its_aid=b'',
+                        its_aid_length=0,
+                        permissions=b'',
+                    )
             # §7.1.2: DENM-specific headerInfo constraints
             if psid == 37:
                 # generationLocation SHALL be present
